@@ -394,6 +394,12 @@ def _check_brackets(prog: Program, res: Result):
     n_paths = 0
     seen_b = set()
     for f_ in e3.run_function(s3):
+        if f_.exit is not None and f_.exit[0] == "return" and not any(ev.kind == "SOLVE" for ev in f_.events):
+            # must-pass-through: the equivalent tube is handed out only after its pipe conductivity has been matched
+            trail = " & ".join(k for k, tr, ln in f_.trail)[:120]
+            res.ob("R15.5", "every path that returns the equivalent tube runs the pipe-conductivity search", False, prog.loc(eq, f_.exit[2]))
+            res.violation("R15.5", f"search-skipped|{trail[:60]}", prog.loc(eq, f_.exit[2]), eq.qualname,
+                          f"on the path [{trail}] the equivalent tube is returned without the pipe-conductivity search: it keeps the analytic estimate, whose R_conv + R_pipe is off by whatever that test tolerates")
         for ev in f_.events:
             if ev.kind != "SOLVE":
                 continue
@@ -572,6 +578,9 @@ def _check_recompute(prog: Program, res: Result):
 
 
 VARIANTS = [
+    Variant("pipe-conductivity search skipped when the estimate's residual is below 1e-3 (seeded C15_i)", "break",
+            [(BH, "        solve_root(\n            eq_single_u_tube.pipe.k,\n            objective_pipe_conductivity,\n            lower=k_p_lower,\n            upper=k_p_upper,\n        )",
+              "        if abs(objective_pipe_conductivity(eq_single_u_tube.pipe.k)) > 1.0e-3:\n            solve_root(\n                eq_single_u_tube.pipe.k,\n                objective_pipe_conductivity,\n                lower=k_p_lower,\n                upper=k_p_upper,\n            )")], "R15.5"),
     Variant("pipe-conductivity search warm-started within a decade of the previous conversion's root (seeded C15_g)", "break",
             [(BH, "class GHEDesignerBoreholeWithMultiplePipes(GHEDesignerBoreholeBase):\n", "class GHEDesignerBoreholeWithMultiplePipes(GHEDesignerBoreholeBase):\n    _k_p_equivalent = None\n\n"),
              (BH, "        k_p_upper = eq_single_u_tube.pipe.k * 10.0\n", "        k_p_upper = eq_single_u_tube.pipe.k * 10.0\n        if self._k_p_equivalent is not None:\n            k_p_lower = max(k_p_lower, self._k_p_equivalent / 10.0)\n            k_p_upper = min(k_p_upper, self._k_p_equivalent * 10.0)\n")], "R15.5"),
